@@ -255,13 +255,13 @@ func checkProcessEventOutcomes(c *core.Ctx) {
 // operator data store — are exactly the allow-listed ones.
 func checkOutsideEffects(c *core.Ctx) {
 	allow := map[string]string{
-		"ssv-spec/types.KeyManager.AddShare|" + ehN + "EventHandler.handleShareCreation":              "idempotent (only if absent)",
-		"ssv-spec/types.KeyManager.RemoveShare|" + ehN + "EventHandler.handleValidatorRemoved":         "idempotent (only if present)",
-		"ssv/ekm.StorageProvider.BumpSlashingProtection|" + ehN + "EventHandler.handleClusterReactivated": "monotone (never lowers a record)",
-		"ssv/ibft/storage.QBFTStores.Each|" + ehN + "EventHandler.handleValidatorRemoved":              "re-executed on replay",
-		"ssv/protocol/v2/qbft/storage.QBFTStore.CleanAllInstances|" + ehN + "EventHandler.handleValidatorRemoved": "re-executed on replay",
+		"ssv-spec/types.KeyManager.AddShare|" + ehN + "EventHandler.handleShareCreation":                              "idempotent (only if absent)",
+		"ssv-spec/types.KeyManager.RemoveShare|" + ehN + "EventHandler.handleValidatorRemoved":                        "idempotent (only if present)",
+		"ssv/ekm.StorageProvider.BumpSlashingProtection|" + ehN + "EventHandler.handleClusterReactivated":             "monotone (never lowers a record)",
+		"ssv/ibft/storage.QBFTStores.Each|" + ehN + "EventHandler.handleValidatorRemoved":                             "re-executed on replay",
+		"ssv/protocol/v2/qbft/storage.QBFTStore.CleanAllInstances|" + ehN + "EventHandler.handleValidatorRemoved":     "re-executed on replay",
 		"ssv/protocol/v2/qbft/storage.InstanceStore.CleanAllInstances|" + ehN + "EventHandler.handleValidatorRemoved": "re-executed on replay",
-		"ssv/operator/datastore.OperatorDataStore.SetOperatorData|" + ehN + "EventHandler.handleOperatorAdded":    "in-memory cache of the own operator",
+		"ssv/operator/datastore.OperatorDataStore.SetOperatorData|" + ehN + "EventHandler.handleOperatorAdded":        "in-memory cache of the own operator",
 	}
 	n := 0
 	for _, f := range c.P.SourceFuncs(ehPkg) {
@@ -345,10 +345,10 @@ func checkResumePoint(c *core.Ctx) {
 	a := c.E.Analyze(f)
 	get := nsN + "GetLastProcessedBlock(p7, nil)#0"
 	allowed := map[string]string{
-		get: "raw marker (replaced before use on the found path)",
+		get:                     "raw marker (replaced before use on the found path)",
 		"p6.RegistrySyncOffset": "configured start when nothing was processed yet",
-		"math/big.Int.SetUint64*(new:math/big.Int, (math/big.Int.Uint64*(" + get + ") + 1))":                    "last processed + 1",
-		"math/big.Int.SetUint64*(new:math/big.Int, (math/big.Int.Uint64*(local:*) + 1))":                        "last processed + 1 (cursor holds the raw marker at this point)",
+		"math/big.Int.SetUint64*(new:math/big.Int, (math/big.Int.Uint64*(" + get + ") + 1))":                "last processed + 1",
+		"math/big.Int.SetUint64*(new:math/big.Int, (math/big.Int.Uint64*(local:*) + 1))":                    "last processed + 1 (cursor holds the raw marker at this point)",
 		"math/big.Int.SetUint64*(new:math/big.Int, (ssv/eth/eventsyncer.EventSyncer.SyncHistory(*)#0 + 1))": "synced + 1",
 	}
 	n := 0
